@@ -249,6 +249,7 @@ fn eval_inner(target: &str, input: &str) -> Option<String> {
                 None => Some(format!("{:?}: xml_id_node(\"{}\") finds nothing", doc, expected)),
             }
         }
+        "default_ns" => c10_default_ns_witness(),
         "tree_ops" => {
             let f: Vec<&str> = input.split(' ').collect();
             if f.len() != 5 { return None; }
@@ -290,6 +291,7 @@ fn inputs(target: &str, large: bool) -> Vec<String> {
             }
             v
         }
+        "default_ns" => vec!["<a xmlns=\"u\"/> + append(new element b in no namespace)".to_string()],
         "xhtml_ns" => vec!["<h:p xmlns:h=\"http://www.w3.org/1999/xhtml\"><h:br/></h:p>".to_string()],
         "text_roundtrip_gt" | "cdata_roundtrip" => {
             // bracket / '>' runs first (the ]]> guard and the CDATA splitter), then the general alphabet
@@ -485,4 +487,22 @@ mod treeops {
         if after != want { return Some(format!("{}({}, {}) [{}]: forest {:?} differs from the model {:?}", op, x, y, if ok { "Ok" } else { "Err" }, after, want)); }
         None
     }
+}
+// (C10 witness) no-namespace element below a default namespace declaration
+#[allow(dead_code)]
+fn c10_default_ns_witness() -> Option<String> {
+    let mut xot = Xot::new();
+    let root = xot.parse("<a xmlns=\"u\"/>").ok()?;
+    let a = xot.document_element(root).ok()?;
+    let b = xot.add_name("b");
+    let el = xot.new_element(b);
+    xot.append(a, el).ok()?;
+    let s = xot.to_string(root).ok()?;
+    let mut xot2 = Xot::new();
+    let root2 = xot2.parse(&s).ok()?;
+    let a2 = xot2.document_element(root2).ok()?;
+    let b2 = xot2.first_child(a2)?;
+    let name = xot2.element(b2)?.name();
+    let (_, ns) = xot2.name_ns_str(name);
+    if ns != "" { Some(format!("serialised as {:?}; the element b is read back in namespace {:?}", s, ns)) } else { None }
 }
